@@ -79,15 +79,28 @@ def make(spec):
             decoders.append(((lambda lo, sz: (lambda a: (a >= lo) & (a < lo + sz)))(lo, sz), sj))
     timeout = spec.get("timeout") or None
     kind = spec["kind"]
-    if kind == "shared":
-        ic = wishbone.InterconnectShared(masters, decoders, register=spec.get("register", False),
-                                         timeout_cycles=timeout)
-    elif kind == "crossbar":
-        ic = wishbone.Crossbar(masters, decoders, register=spec.get("register", False), timeout_cycles=timeout)
-    elif kind == "p2p":
-        ic = wishbone.InterconnectPointToPoint(masters[0], slaves[0])
-    else:
-        raise ValueError(kind)
+    rr_orig = wishbone.roundrobin.RoundRobin
+    if spec.get("canary") == "stuck_grant":
+        # canary of the liveness clauses (never a DUT of the sweeps): the interconnect is built, in memory only, with
+        # an arbiter whose grant register never moves - a master other than master 0 starves for ever on an idle bus
+        class _StuckRR(Module):
+            def __init__(self, n, switch_policy=None):
+                self.request = Signal(n)
+                self.grant = Signal(max=max(2, n))
+                self.sync += self.grant.eq(self.grant)
+        wishbone.roundrobin.RoundRobin = _StuckRR
+    try:
+        if kind == "shared":
+            ic = wishbone.InterconnectShared(masters, decoders, register=spec.get("register", False),
+                                             timeout_cycles=timeout)
+        elif kind == "crossbar":
+            ic = wishbone.Crossbar(masters, decoders, register=spec.get("register", False), timeout_cycles=timeout)
+        elif kind == "p2p":
+            ic = wishbone.InterconnectPointToPoint(masters[0], slaves[0])
+        else:
+            raise ValueError(kind)
+    finally:
+        wishbone.roundrobin.RoundRobin = rr_orig
     top.submodules.ic = ic
     for mi in masters:
         # read data as a small code: slave tags 9..11, 15 = all ones (the time-out's error data)
